@@ -4905,8 +4905,18 @@ impl<'a> SpanTotal<'a> {
     #[inline]
     fn total_invariant(&self, span: Span) -> f64 {
         assert!(self.unit <= Unit::Week);
-        let nanos = span.to_invariant_nanoseconds();
-        (nanos.get() as f64) / (self.unit.nanoseconds().get() as f64)
+        let nanos = span.to_invariant_nanoseconds().get();
+        let unit_nanos = i128::from(self.unit.nanoseconds().get());
+        // We compute the whole number of units with integer arithmetic, and
+        // only use floating point division for what's left over (which is
+        // always less than a single unit). Converting the total number of
+        // nanoseconds to a float first would lose precision for big spans,
+        // since it doesn't generally fit into the mantissa of a `f64`. For
+        // example, the total number of hours in `20_496_383.hours()` would be
+        // reported as `20496383.000000004`.
+        let whole = nanos / unit_nanos;
+        let rest = nanos % unit_nanos;
+        (whole as f64) + ((rest as f64) / (unit_nanos as f64))
     }
 }
 
